@@ -25,7 +25,8 @@ type boundsCtx struct {
 	// valMin: lower bound on len(v) for specific SSA values (call-site summaries)
 	valMin func(v ssa.Value) (int64, bool)
 	// facts that depend on path conditions (e.g. x % l is in [0,l) once l >= 1 is known)
-	deferred []func(z *Zone)
+	deferred []func(z *Zone, at *ssa.BasicBlock)
+	phiPass  bool
 }
 
 func newBoundsCtx(p *Prog, fn *ssa.Function) *boundsCtx {
@@ -122,7 +123,7 @@ func (bc *boundsCtx) term(v ssa.Value) lterm {
 			} else {
 				// a % l with l > 0: |result| < l; decided once the path conditions are known
 				a, l := bc.term(x.X), bc.term(x.Y)
-				bc.deferred = append(bc.deferred, func(z *Zone) {
+				bc.deferred = append(bc.deferred, func(z *Zone, _ *ssa.BasicBlock) {
 					if z.entLE(lconst(1), l) {
 						z.addLT(me, l)
 						if z.entLE(lconst(0), a) {
@@ -193,7 +194,7 @@ func (bc *boundsCtx) term(v ssa.Value) lterm {
 				max = int64(1)<<uint(tb-1) - 1
 			}
 		}
-		bc.deferred = append(bc.deferred, func(z *Zone) {
+		bc.deferred = append(bc.deferred, func(z *Zone, _ *ssa.BasicBlock) {
 			if !z.entLE(lconst(0), a) {
 				return
 			}
@@ -217,6 +218,17 @@ func (bc *boundsCtx) term(v ssa.Value) lterm {
 				return me
 			}
 		}
+		if isCallTo(x, "bytes.Index", "bytes.IndexByte", "strings.Index", "strings.IndexByte") {
+			me := lterm{bc.name(v), 0}
+			bc.z.addLE(lconst(-1), me)
+			bc.z.addLT(me, bc.lenOf(x.Call.Args[0]))
+			return me
+		}
+		if isCallTo(x, "(time.Time).UnixNano", "(time.Time).Unix") {
+			me := lterm{bc.name(v), 0}
+			bc.z.addLE(lconst(0), me)
+			return me
+		}
 		if isCallTo(x, "(*bytes.Buffer).Len") {
 			if ap := accessPath(x.Call.Args[0], bc.getters, 0); ap != "" {
 				me := lterm{"buflen:" + ap, 0}
@@ -233,20 +245,100 @@ func (bc *boundsCtx) term(v ssa.Value) lterm {
 		}
 	case *ssa.Phi:
 		me := lterm{bc.name(v), 0}
-		// induction: phi(init, phi+c)
-		if len(x.Edges) == 2 {
-			for k := 0; k < 2; k++ {
-				if bo, ok := x.Edges[k].(*ssa.BinOp); ok && bo.X == ssa.Value(x) {
-					if cv, isC := constInt(bo.Y); isC {
-						init := bc.term(x.Edges[1-k])
-						if (bo.Op == token.ADD && cv > 0) || (bo.Op == token.SUB && cv < 0) {
-							bc.z.addLE(init, me)
-						}
-						if (bo.Op == token.ADD && cv < 0) || (bo.Op == token.SUB && cv > 0) {
-							bc.z.addLE(me, init)
+		bc.installPhiPass()
+		// induction: every edge is either an initial value or phi+c / (phi+1 of the range lowering) with the same sign
+		var inits []ssa.Value
+		up, down, other := false, false, false
+		for _, e := range x.Edges {
+			if e == ssa.Value(x) {
+				continue
+			}
+			if bo, ok := e.(*ssa.BinOp); ok && bo.X == ssa.Value(x) {
+				if cv, isC := constInt(bo.Y); isC && (bo.Op == token.ADD || bo.Op == token.SUB) {
+					if bo.Op == token.SUB {
+						cv = -cv
+					}
+					if cv > 0 {
+						up = true
+					} else if cv < 0 {
+						down = true
+					}
+					continue
+				}
+			}
+			inits = append(inits, e)
+		}
+		if (up || down) && !(up && down) {
+			for _, iv := range inits {
+				if _, isPhiSelf := iv.(*ssa.Phi); isPhiSelf && iv == ssa.Value(x) {
+					continue
+				}
+			}
+			if len(inits) == 1 {
+				init := bc.term(inits[0])
+				if up {
+					bc.z.addLE(init, me)
+				} else {
+					bc.z.addLE(me, init)
+				}
+			} else {
+				other = true
+			}
+		} else {
+			other = true
+		}
+		if other || len(inits) > 1 {
+			// join: constant edges give constant bounds; otherwise a lower bound that all edges share (decided with path facts)
+			allConst := true
+			var lo, hi int64
+			first := true
+			for _, e := range x.Edges {
+				cv, isC := constInt(e)
+				if !isC {
+					allConst = false
+					break
+				}
+				if first || cv < lo {
+					lo = cv
+				}
+				if first || cv > hi {
+					hi = cv
+				}
+				first = false
+			}
+			if allConst && !first {
+				bc.z.addLE(lconst(lo), me)
+				bc.z.addLE(me, lconst(hi))
+			} else {
+				var terms []lterm
+				selfInc := false
+				for _, e := range x.Edges {
+					if e == ssa.Value(x) {
+						continue
+					}
+					if bo, ok := e.(*ssa.BinOp); ok && bo.X == ssa.Value(x) {
+						if cv, isC := constInt(bo.Y); isC && bo.Op == token.ADD && cv > 0 {
+							selfInc = true
+							continue
 						}
 					}
+					terms = append(terms, bc.term(e))
 				}
+				_ = selfInc
+				bc.deferred = append(bc.deferred, func(z *Zone, _ *ssa.BasicBlock) {
+					for _, c0 := range []int64{1, 0, -1} {
+						all := len(terms) > 0
+						for _, t := range terms {
+							if !z.entLE(lconst(c0), t) {
+								all = false
+							}
+						}
+						if all {
+							z.addLE(lconst(c0), me)
+							break
+						}
+					}
+				})
 			}
 		}
 		if isUnsigned(x.Type()) {
@@ -528,7 +620,7 @@ func (bc *boundsCtx) zoneAt(b *ssa.BasicBlock, extra ...lterm) *Zone {
 			bc.apply(z, f)
 		}
 		for _, d := range bc.deferred {
-			d(z)
+			d(z, b)
 		}
 	}
 	return z
@@ -582,4 +674,72 @@ func (bc *boundsCtx) proveSlice(s *ssa.Slice) (bool, string) {
 		why += fmt.Sprintf("no witness for high (%s%+d) <= length (%s%+d)", hi.v, hi.c, lt.v, lt.c)
 	}
 	return false, why
+}
+
+// installPhiPass adds (once) a deferred pass that finds, optimistically, the integer phis of the function
+// whose every incoming value is >= 0 (resp. >= 1) given the path facts: start from all phis, drop those with
+// an incoming value that is neither entailed >= c nor (another candidate phi + non-negative constant).
+func (bc *boundsCtx) installPhiPass() {
+	if bc.phiPass {
+		return
+	}
+	bc.phiPass = true
+	var phis []*ssa.Phi
+	for _, b := range bc.fn.Blocks {
+		for _, in := range b.Instrs {
+			if ph, ok := in.(*ssa.Phi); ok && intBits(ph.Type()) > 0 {
+				phis = append(phis, ph)
+			}
+		}
+	}
+	// make sure every edge has a term (creates definitional facts) before the deferred pass runs
+	bc.deferred = append(bc.deferred, func(z *Zone, _ *ssa.BasicBlock) {
+		for _, c0 := range []int64{0} {
+			cand := map[*ssa.Phi]bool{}
+			for _, ph := range phis {
+				cand[ph] = true
+			}
+			okEdge := func(e ssa.Value) bool {
+				if cv, isC := constInt(e); isC {
+					return cv >= c0
+				}
+				base, add := e, int64(0)
+				if bo, ok := e.(*ssa.BinOp); ok && bo.Op == token.ADD {
+					if k, isC := constInt(bo.Y); isC {
+						base, add = bo.X, k
+					}
+				}
+				if ph, ok := base.(*ssa.Phi); ok && cand[ph] && add >= 0 {
+					return true
+				}
+				if n, has := bc.names[e]; has {
+					return z.entLE(lconst(c0), lterm{n, 0})
+				}
+				if n, has := bc.names[base]; has {
+					return z.entLE(lconst(c0), lterm{n, add})
+				}
+				return false
+			}
+			for changed := true; changed; {
+				changed = false
+				for _, ph := range phis {
+					if !cand[ph] {
+						continue
+					}
+					for _, e := range ph.Edges {
+						if !okEdge(e) {
+							delete(cand, ph)
+							changed = true
+							break
+						}
+					}
+				}
+			}
+			for ph := range cand {
+				if n, has := bc.names[ph]; has {
+					z.addLE(lconst(c0), lterm{n, 0})
+				}
+			}
+		}
+	})
 }
